@@ -225,6 +225,71 @@ def roundtrip_body(c):
     return ok(nontrivial=True, key=json.dumps([k, n]), labels=["roundtrip", f"kind={k}"], sample=sample)
 
 
+def kind_change_body(c):
+    """Functions whose RESULT KIND depends on the values: complex data whose imaginary parts are (numerically) zero.  real_if_close then
+    returns a real array; the tangent / cotangent must follow the output's / the argument's kind: J v = Re v, J^T g = g + 0j."""
+    import autograd
+    import autograd.numpy as anp
+
+    from ..case import describe_exc, from_autograd
+
+    shape = c.choice([(), (3,), (2, 2)])
+    vseed = c.seed()
+    (re, w), _ = values.generic(vseed, [shape, shape], -1.5, 1.5)
+    tiny = c.choice([0.0, 1e-17, -3e-18])
+    z0 = onp.asarray(re + 1j * tiny * onp.ones(shape))
+    how = c.choice(["real_if_close", "real_if_close_then_weights", "after_square_root_of_square"])
+    cw = onp.asarray(values.cdirection(vseed, shape, 7))
+
+    def f(z):
+        if how == "real_if_close":
+            return anp.real_if_close(z)
+        if how == "real_if_close_then_weights":
+            return anp.real(anp.real_if_close(z) * cw)
+        return anp.real_if_close(anp.conj(z) * 1.0) * w
+
+    def f_ref(v):  # the real-linear map the function is at such a point, applied to a complex direction
+        if how == "real_if_close":
+            return onp.real(v)
+        if how == "real_if_close_then_weights":
+            return onp.real(onp.real(v) * cw)
+        return onp.real(v) * w
+
+    y0 = onp.asarray(f(z0)) if False else None
+    v = onp.asarray(values.cdirection(vseed, shape, 5))
+    sample = {"how": how, "shape": list(shape), "imag": tiny, "vseed": vseed}
+    c.features.update(how=how)
+    bucket = lambda k: f"C09|kind_change|{how}|{k}"
+    if onp.iscomplexobj(onp.real_if_close(z0)):
+        return Outcome("numpy_rejects", detail="NumPy keeps the result complex", sample=sample)
+    try:
+        y, t = autograd.make_jvp(f)(z0)(v)
+        vjp, y2 = autograd.make_vjp(f)(z0)
+        g = onp.asarray(values.direction(vseed, onp.shape(y2), 9))
+        r = vjp(g)
+    except Exception as e:
+        if not from_autograd(e):
+            raise
+        return raised(e, "kind_change", sample=sample)
+    want_t = f_ref(v)
+    if onp.iscomplexobj(t) and not onp.iscomplexobj(y):
+        return fail("wrong_kind", f"{how}: forward mode returns a complex tangent {onp.asarray(t).tolist()} for a real output", bucket("tangent_kind"), sample=sample)
+    if onp.shape(t) != onp.shape(want_t) or not onp.allclose(onp.asarray(t), want_t, rtol=1e-12, atol=1e-12):
+        return fail("wrong_value", f"{how}: J v = {onp.asarray(want_t).tolist()} but make_jvp gives {onp.asarray(t).tolist()}", bucket("tangent"), sample=sample)
+    # pairing: <g, J v> over the reals == Re <conj-convention gradient, v>: check with two directions
+    for vv in (v, 1j * v):
+        lhs = float(onp.sum(g * f_ref(vv)))
+        rhs = float(onp.real(onp.sum(onp.conj(onp.asarray(r)) * vv))) if onp.iscomplexobj(r) else float(onp.sum(onp.asarray(r) * onp.real(vv)))
+        if abs(lhs - rhs) > 1e-10 * max(1.0, abs(lhs)):
+            # (autograd's convention for the gradient of a complex argument is conj-linear pairing; accept either sign convention of the imaginary part)
+            rhs2 = float(onp.real(onp.sum(onp.asarray(r) * vv))) if onp.iscomplexobj(r) else rhs
+            if abs(lhs - rhs2) > 1e-10 * max(1.0, abs(lhs)):
+                return fail("wrong_value", f"{how}: reverse mode cotangent {onp.asarray(r).tolist()} does not pair with the direction ({lhs!r} vs {rhs!r})", bucket("cotangent"), sample=sample)
+    if not onp.iscomplexobj(r):
+        return fail("wrong_kind", f"{how}: the cotangent of a complex argument is real", bucket("cotangent_kind"), sample=sample)
+    return ok(nontrivial=True, key=json.dumps([how, list(shape), tiny]), labels=["kind_change", "how=" + how], sample=sample)
+
+
 def tests():
     out = []
     from ..templates.core import complex_capable
@@ -238,6 +303,7 @@ def tests():
     out.append(Test("holomorphic", holo_body, quick=600, thorough=8000, shard_size=150))
     out.append(Test("real_loss", realloss_body, quick=300, thorough=3000, shard_size=150))
     out.append(Test("roundtrip", roundtrip_body, quick=300, thorough=3000, shard_size=150))
+    out.append(Test("kind_change", kind_change_body, quick=300, thorough=2000, shard_size=150))
     return out
 
 
